@@ -62,7 +62,7 @@ func VString(v *ast.Value) string { panic("ghost") }
 //@ define idField(f *ast.FieldDefinition) bool = f.Name == "id" && len(f.Arguments) == 0 && TName(f.Type) == "ID" && f.Type.NonNull
 
 //@ func isIDField
-//@ props C03 C05
+//@ props C05
 //@ requires f != nil
 //@ ensures[spec] result == idField(f)
 //@ modifies fresh
